@@ -453,13 +453,43 @@ func (e *Env) ident(name string) CV {
 				return CV{T: g.load(e.st, v.P), Ty: t}
 			}
 		}
+		// closure frames: captured variables are cells (current value), look into bindings
+		for fv, b := range e.fr.free {
+			if fv.Name() == name && b.P != nil {
+				if b.P.Kind == PCell {
+					if cv, ok := e.st.cells[b.P.Cell]; ok && cv.T == "" {
+						panic(cerr("captured variable %s holds a non-scalar value", name))
+					}
+				}
+				return CV{T: g.load(e.st, b.P), Ty: fv.Type().(*types.Pointer).Elem()}
+			}
+		}
+		if key, ok := e.fr.envCells[name]; ok {
+			if cv, ok := e.st.cells[key]; ok && cv.T != "" {
+				return CV{T: cv.T, Ty: e.fr.envTypes[name]}
+			}
+		}
 		if v, ok := e.fr.params[name]; ok {
 			return v
 		}
-		// closure frames: look into bindings of free variables
-		for fv, b := range e.fr.free {
-			if fv.Name() == name && b.P != nil {
-				return CV{T: g.load(e.st, b.P), Ty: fv.Type().(*types.Pointer).Elem()}
+		// enclosing activations (inlined closures see their parents' variables)
+		for pf := e.fr.parent; pf != nil; pf = pf.parent {
+			pe := *e
+			pe.fr = pf
+			pe.vars = map[string]CV{}
+			pe.bound = map[string]CV{}
+			if a := pe.findLocal(name); a != nil {
+				if cv, ok := e.st.cells[a]; ok && cv.T != "" {
+					return CV{T: cv.T, Ty: a.Type().(*types.Pointer).Elem()}
+				}
+			}
+			for fv, b := range pf.free {
+				if fv.Name() == name && b.P != nil {
+					return CV{T: g.load(e.st, b.P), Ty: fv.Type().(*types.Pointer).Elem()}
+				}
+			}
+			if v, ok := pf.params[name]; ok {
+				return v
 			}
 		}
 	}
@@ -771,6 +801,16 @@ func (e *Env) call(n *CCall) CV {
 			t = types.Typ[types.Int64]
 		}
 		return CV{T: g.unbox(v.T, t), Ty: t}
+	case "haskey":
+		need(2)
+		m := e.eval(n.Args[0])
+		mt, ok := m.Ty.Underlying().(*types.Map)
+		if !ok {
+			panic(cerr("haskey: not a map"))
+		}
+		k := e.at(e.eval(n.Args[1]), mt.Key())
+		pk, ps, _, _ := g.mapKeys(m.Ty)
+		return CV{T: and(not(eq(m.T, "0")), sx("select", sx("select", g.heapGet(e.st, pk, ps), m.T), k.T)), Ty: boolT}
 	case "hastype":
 		// hastype(x, "int64")
 		need(2)
@@ -946,4 +986,53 @@ func (e *Env) tryEval(x CExpr) (v CV, ok bool) {
 		}
 	}()
 	return e.eval(x), true
+}
+
+// cellOf resolves a source variable name (local of the frame or captured variable) to its cell key.
+func (e *Env) cellOf(name string) interface{} {
+	if e.fr == nil {
+		return nil
+	}
+	if a := e.findLocal(name); a != nil {
+		if _, ok := e.st.cells[a]; ok {
+			return a
+		}
+	}
+	for fv, b := range e.fr.free {
+		if fv.Name() == name && b.P != nil && b.P.Kind == PCell {
+			return b.P.Cell
+		}
+	}
+	if key, ok := e.fr.envCells[name]; ok {
+		return key
+	}
+	if e.fr.parent != nil {
+		pe := *e
+		pe.fr = e.fr.parent
+		return pe.cellOf(name)
+	}
+	return nil
+}
+
+// cellOfStatic is cellOf without a state (used by effect analysis): any declaration of that name.
+func (e *Env) cellOfStatic(name string) interface{} {
+	if e.fr == nil {
+		return nil
+	}
+	for _, b := range e.fr.fn.Blocks {
+		for _, in := range b.Instrs {
+			if a, ok := in.(*ssa.Alloc); ok && a.Comment == name {
+				return a
+			}
+		}
+	}
+	for fv, b := range e.fr.free {
+		if fv.Name() == name && b.P != nil && b.P.Kind == PCell {
+			return b.P.Cell
+		}
+	}
+	if key, ok := e.fr.envCells[name]; ok {
+		return key
+	}
+	return nil
 }
